@@ -114,6 +114,8 @@ func (fr *Frame) doCall(in ssa.Instruction, cc *ssa.CallCommon, fv Val, args []V
 				all := append([]Val{fv}, args...)
 				return fr.applyContract(in, nil, sp, all, nil, resT, e.L.ifaceKey(cc))
 			}
+			// call-site conditions hold for interface calls without a contract too
+			fr.checkCallPre(in, nil, nil, append([]Val{fv}, args...), nil, e.L.ifaceKey(cc))
 			return fr.havocCall(in, e.L.ifaceKey(cc), resT, nil)
 		}
 	} else {
@@ -270,6 +272,13 @@ func (fr *Frame) applyContract(in ssa.Instruction, callee *ssa.Function, sp *Fun
 			}
 		}
 	}
+	// the callee may have allocated: what it returns, and what is loaded from that, may lie above the
+	// caller's allocation bound (fresh(x) is "above the bound at the call")
+	if !sp.Pure {
+		na := e.fresh("alloc", sRef)
+		e.assume(app(">=", na, fr.st.alloc))
+		fr.st.alloc = na
+	}
 	res := e.freshVal(resT, "res_"+lastName(key), fr.pc)
 	if sp.NonNil {
 		if kindOf(resT) == kTuple {
@@ -310,6 +319,25 @@ func (fr *Frame) applyContract(in ssa.Instruction, callee *ssa.Function, sp *Fun
 	}
 	if sp.CallsEach != "" {
 		fr.applyCallsEach(in, sp, env2)
+	}
+	if e.spec != nil && e.spec.AssumeResult != nil && fr.depth == 0 {
+		for name, cls := range e.spec.AssumeResult {
+			if callee != nil && name != e.L.shortName(callee) && name != callee.Name() {
+				continue
+			}
+			if callee == nil && !strings.HasSuffix(key, "."+name) && key != name {
+				continue
+			}
+			for _, c := range cls {
+				t, err := env2.evalBool(c.E)
+				if err != nil {
+					e.errs = append(e.errs, fmt.Sprintf("%s: %v", c.Line, err))
+					continue
+				}
+				e.assume(mkImp(fr.pc, t))
+				e.flag("assumed-at-call " + name + ": " + c.Src)
+			}
+		}
 	}
 	return res
 }
